@@ -1829,7 +1829,6 @@ func typeRootDoc(v ssa.Value) string {
 	return v.Name()
 }
 
-
 // mergeSkipHarmless: the edges of Merge along which skipping the append of list `field` loses nothing — the edge taken
 // when the other document is nil, when len(other.field) is zero, or when a helper that answers true whenever
 // len(recv.field) > 0 answered false.
